@@ -154,6 +154,9 @@ _env = jinja2.Environment(autoescape=False, keep_trailing_newline=True,
                           extensions=["jinja2.ext.do", "jinja2.ext.loopcontrols"])
 
 
+_env.globals["peek"] = lambda: ""      # a function offered to the templates through template_config.context (see c12 "nested")
+
+
 def enc_res(r, payload):
     return [0, payload(r[1])] if r[0] == "ok" else [1, r[1]]
 
